@@ -75,11 +75,18 @@ def lean_stage(pid):
 
 
 def tie_stage(spec, data, tier, seed):
-    """model vs implementation for the processes the property's theorems are about"""
+    """model vs implementation for the processes the property's theorems are about.
+
+    A disagreement is first re-examined with model and implementation sharing one libm
+    (`rec.SharedLibm`: numpy's scalar exp/log/log10/power differ from the C library's by 1 ulp on
+    a few per cent of arguments, and a comparison sitting exactly on a branch boundary can then
+    flip).  Calls that agree under the shared libm are counted as *ulp ties*, not alarmed."""
+    from . import rec, scen as scen_mod
     encs = collect.available_encoders_all()
     stats, missing, disagreements = [], [], []
     cap = 30000 if tier == "quick" else 400000
     nfuzz = 1500 if tier == "quick" else 30000
+    scen_by_id = {r.scen["id"]: r.scen for r in data["records"]}
     for name in spec.processes:
         L = encs.get(name)
         if L is None:
@@ -94,22 +101,43 @@ def tie_stage(spec, data, tier, seed):
         st = fuzzlib.compare_batch(L, reg, [(l, e) for (_, _, l, e) in pairs])
         d = st.as_dict()
         d["source"] = "whole-run calls"
-        stats.append(d)
+        d["ulp_ties"] = 0
         if st.bad:
-            # attach scenario/day of the first disagreement
-            out = st.first_bad[0]
-            for (sid, t, l, e) in pairs:
-                if l == out["line"]:
-                    out["scen"], out["t"] = sid, t
-                    break
-            disagreements.append(dict(process=name, source="whole-run", **out))
+            # which scenarios disagree?  re-record them with the shared libm
+            bad_lines = {b["line"] for b in st.first_bad}
+            out = proto.run_driver(reg.lines + [l for (_, _, l, e) in pairs])[len(reg.lines):]
+            bad_scens = []
+            for (sid, t, l, e), o in zip(pairs, out):
+                if not proto.compare(e, L.trim_reply(o))[0] and sid not in bad_scens:
+                    bad_scens.append(sid)
+            with rec.SharedLibm():
+                st2, _ = fuzzlib.whole_runs([L], 0, seed, scenarios=[scen_by_id[s] for s in bad_scens if s in scen_by_id])
+            st2 = st2[L.NAME]
+            if st2.bad == 0 and st2.calls > 0:
+                d["ulp_ties"] = st.bad
+                d["disagreements"] = 0
+            else:
+                outb = dict(st2.first_bad[0]) if st2.first_bad else dict(st.first_bad[0])
+                for (sid, t, l, e) in pairs:
+                    if l == st.first_bad[0]["line"]:
+                        outb["scen"], outb["t"] = sid, t
+                        break
+                disagreements.append(dict(process=name, source="whole-run", **outb))
+        stats.append(d)
         if hasattr(L, "fuzz") and hasattr(L, "FUNC"):
-            st2 = fuzzlib.direct_fuzz(L, nfuzz, seed)
-            d2 = st2.as_dict()
-            d2["source"] = "direct fuzz"
-            stats.append(d2)
-            if st2.bad:
-                disagreements.append(dict(process=name, source="direct-fuzz", **st2.first_bad[0]))
+            st3 = fuzzlib.direct_fuzz(L, nfuzz, seed)
+            d3 = st3.as_dict()
+            d3["source"] = "direct fuzz"
+            d3["ulp_ties"] = 0
+            if st3.bad:
+                with rec.SharedLibm():
+                    st4 = fuzzlib.direct_fuzz(L, nfuzz, seed)
+                if st4.bad == 0:
+                    d3["ulp_ties"] = st3.bad
+                    d3["disagreements"] = 0
+                else:
+                    disagreements.append(dict(process=name, source="direct-fuzz", **st4.first_bad[0]))
+            stats.append(d3)
     return dict(stats=stats, missing=missing, disagreements=disagreements)
 
 
